@@ -14,6 +14,8 @@
 (*   [op |-> "add_graph_direct", g, labels]   [op |-> "del_graph", g]      *)
 (*   [op |-> "del_all"]   [op |-> "add_blank", g, label]                   *)
 (*   [op |-> "extract", g]                                                 *)
+(*   [op |-> "get_graph", g]  (per-graph store: under the lock, creates an  *)
+(*        empty graph object on first access; shared store: no lock)        *)
 (* and, on top of the store, the property graph's delete_node              *)
 (*   [op |-> "del_node", g, label]  - one step, WITHOUT the lock (as coded) *)
 (***************************************************************************)
@@ -64,9 +66,13 @@ Entry(o) == CASE o.op \in {"add_graph", "add_graph_direct"} -> "read"
               [] o.op = "del_all"   -> "delete"
               [] o.op = "add_blank" -> "read"
               [] o.op = "extract"   -> "copy"
+              [] o.op = "get_graph" -> "lookup"
 
+LockFree(o) == o.op = "del_node" \/ (o.op = "get_graph" /\ Backend = "shared")
 Call(t) == /\ pc[t] = "call"
-           /\ Goto(t, IF Op(t).op = "del_node" THEN "delnode" ELSE "acq")
+           /\ Goto(t, IF Op(t).op = "del_node" THEN "delnode"
+                      ELSE IF Op(t).op = "get_graph" /\ Backend = "shared" THEN "ret"      \* returns the one graph object, no lock
+                      ELSE "acq")
            /\ rels' = [rels EXCEPT ![t] = 0] /\ acqs' = [acqs EXCEPT ![t] = 0]
            /\ UNCHANGED <<lock, ctr, nodes, ip, loc, lost, lockerr>>
 
@@ -156,6 +162,13 @@ DAdd(t) == /\ pc[t] = "add" /\ Backend = "disjoint"
            /\ Goto(t, "rel")
            /\ UNCHANGED <<lock, ip, loc, rels, acqs, lockerr>>
 
+\* ---- get_graph of the per-graph store: the lookup creates (and stores) an empty graph object for an unseen id - a
+\* write, which is why it happens under the lock
+DLookup(t) == /\ pc[t] = "lookup" /\ Backend = "disjoint"
+              /\ nodes' = IF Op(t).g \in DOMAIN nodes THEN nodes ELSE Put(nodes, Op(t).g, <<>>)
+              /\ Goto(t, "rel")
+              /\ UNCHANGED <<lock, ctr, ip, loc, rels, acqs, lost, lockerr>>
+
 \* ---- delete_node: removes the stored node carrying the label (nothing to do when there is none: the call raises)
 DelNode(t) == /\ pc[t] = "delnode"
               /\ LET o == Op(t) IN
@@ -180,13 +193,13 @@ Release(t) == /\ pc[t] = "rel"
               /\ UNCHANGED <<ctr, nodes, ip, loc, acqs, lost>>
 
 Return(t) == /\ pc[t] = "ret"
-             /\ lockerr' = (lockerr \/ (Op(t).op # "del_node" /\ (rels[t] # 1 \/ acqs[t] # 1)) \/ (UseLock /\ lock = t))
+             /\ lockerr' = (lockerr \/ (~LockFree(Op(t)) /\ (rels[t] # 1 \/ acqs[t] # 1)) \/ (UseLock /\ lock = t))
              /\ IF ip[t] = Len(Scripts[t]) THEN Goto(t, "done") /\ ip' = ip
                 ELSE Goto(t, "call") /\ ip' = [ip EXCEPT ![t] = @ + 1]
              /\ UNCHANGED <<lock, ctr, nodes, loc, rels, acqs, lost>>
 
 Step(t) == \/ Call(t) \/ Acquire(t) \/ SRead(t) \/ Validate(t) \/ SDelete(t) \/ SBump(t) \/ SAdd(t) \/ SCopy(t)
-           \/ DRead(t) \/ DBump(t) \/ DDelete(t) \/ DAdd(t) \/ DelNode(t) \/ Raise(t) \/ Release(t) \/ Return(t)
+           \/ DRead(t) \/ DBump(t) \/ DDelete(t) \/ DAdd(t) \/ DelNode(t) \/ DLookup(t) \/ Raise(t) \/ Release(t) \/ Return(t)
 
 Next == \E t \in Threads : Step(t)
 Spec == Init /\ [][Next]_vars /\ \A t \in Threads : WF_vars(Step(t))
